@@ -14,9 +14,14 @@ Proof. exact init_param_independent. Qed.
 Theorem every_cell_assigned : unassigned_cells = [].
 Proof. exact no_unassigned_cells. Qed.
 
-(* with the picture size filled in, the defaults pass validation (regenerated model of set_parameter);
-   proved for the listed sizes by evaluation -- the sweep over all sizes is run on the real code *)
-Theorem defaults_accepted_partial :
+(* with any picture size of the accepted range filled in (even, 64..4096 x 64..2160), the defaults pass validation
+   (regenerated model of set_parameter, all sizes at once) and are inside the modelled scope *)
+Theorem defaults_accepted : forall w h, 64 <= w <= 4096 -> 64 <= h <= 2160 -> Z.rem w 2 = 0 -> Z.rem h 2 = 0 ->
+  sp_rejects (with_size defaults w h) defaults = false /\ sp_in_scope (with_size defaults w h) defaults = true.
+Proof. exact defaults_accepted_all. Qed.
+
+(* the same by evaluation at a few sizes (kept as a regression example) *)
+Theorem defaults_accepted_examples_hold :
   forallb (fun wh => negb (sp_rejects (with_size defaults (fst wh) (snd wh)) defaults) && sp_in_scope (with_size defaults (fst wh) (snd wh)) defaults)
           [(64, 64); (66, 64); (640, 480); (1280, 720); (1920, 1080); (3840, 2160); (4096, 2160); (4096, 64); (64, 2160)] = true.
 Proof. exact defaults_accepted_examples. Qed.
